@@ -4,7 +4,11 @@ package props
 // non-factory denoms untouchable.  Stateful model over real transactions on a full chain.
 
 import (
+	"bytes"
 	"fmt"
+	bankkeeper "github.com/cosmos/cosmos-sdk/x/bank/keeper"
+	tfbindings "github.com/palomachain/paloma/v2/x/tokenfactory/bindings"
+	tfbindingstypes "github.com/palomachain/paloma/v2/x/tokenfactory/bindings/types"
 	"math/big"
 	"sort"
 	"strings"
@@ -133,9 +137,66 @@ func TestC16_TokenFactoryModel(t *testing.T) {
 				t.Fatalf("failed create changed the sender's balance")
 			}
 		}
+		// a contract creates a denom through the wasm binding, optionally with metadata whose base names the new denom,
+		// somebody else's factory denom, the native denom, or nothing
+		contract := sdk.AccAddress(bytes.Repeat([]byte{0xc6}, 20))
+		contractCreates := 0
+		if !deliver(t, acts[0], banktypes.NewMsgSend(acts[0].Addr, contract, sdk.NewCoins(sdk.NewCoin(chain.BondDenom, sdkmath.NewInt(100_000_000))))) {
+			t.Fatalf("funding the contract failed")
+		}
+		contractCreate := func(t *rapid.T) {
+			sub := rapid.SampledFrom([]string{"cw0", "cw1", "cw2"}).Draw(t, "sub")
+			want := "factory/" + contract.String() + "/" + sub
+			name := fmt.Sprintf("cwname-%d", rapid.IntRange(0, 99).Draw(t, "name"))
+			var md *tfbindingstypes.Metadata
+			base := ""
+			switch rapid.IntRange(0, 4).Draw(t, "metadataBase") {
+			case 0:
+				// no metadata
+			case 1:
+				base = want
+			case 2:
+				base = pickDenom(t) // usually a denom of the model (administered by an account), or native / malformed
+			case 3:
+				base = chain.BondDenom
+			default:
+				base = "" // metadata with an empty base: filled in with the new denom
+				md = &tfbindingstypes.Metadata{Name: name, Symbol: "CW", Display: want, DenomUnits: []tfbindingstypes.DenomUnit{{Denom: want, Exponent: 0}}}
+			}
+			if base != "" {
+				md = &tfbindingstypes.Metadata{Base: base, Name: name, Symbol: "CW", Display: base, DenomUnits: []tfbindingstypes.DenomUnit{{Denom: base, Exponent: 0}}}
+			}
+			bk := c.App.BankKeeper.(bankkeeper.BaseKeeper)
+			tk := c.App.TokenFactoryKeeper
+			cctx, write := c.Ctx().CacheContext()
+			_, err := tfbindings.PerformCreateDenom(&tk, &bk, cctx, contract, &tfbindingstypes.CreateDenom{Subdenom: sub, Metadata: md})
+			if err == nil {
+				write()
+			}
+			if _, berr := c.Block(); berr != nil {
+				t.Fatalf("block: %v", berr)
+			}
+			log = append(log, fmt.Sprintf("contractCreate(%q,metadataBase=%q)=%v %.60v", sub, shortDenom(base), err == nil, err))
+			if err == nil {
+				if _, exists := model[want]; exists {
+					t.Fatalf("denom %s created a second time", want)
+				}
+				if base != "" && base != want {
+					t.Fatalf("contract created %s with metadata for another denom (%s)", want, base)
+				}
+				m := &c16Denom{admin: contract.String(), supply: new(big.Int)}
+				if md != nil {
+					m.meta = name
+				}
+				model[want] = m
+				contractCreates++
+				successes++
+			}
+		}
 		t.Repeat(map[string]func(*rapid.T){
-			"create":  create,
-			"create2": create,
+			"create":         create,
+			"create2":        create,
+			"contractCreate": contractCreate,
 			"mint": func(t *rapid.T) {
 				d := pickDenom(t)
 				s := pickSender(t, d)
